@@ -46,7 +46,15 @@ def run_family(ctx, name, behaviours, tags, server_flags=None, subcmd="run"):
             ctx.samples.append({"family": name, "steps": (b.get("steps") or b.get("schedule"))[:12], "nclients": b["nclients"]})
     out = []
     seen = set()
+    # KF-MINVV-AFTER-PULL: TLC evaluates the finding's trigger itself (GCSafe on the response that hands out the
+    # vector); what follows from it in the same behaviour is attributed to the finding
+    gcunsafe = {v["tid"] for v in viols if v["tag"] == "GCSafe"}
     for v in sorted(viols, key=lambda v: (v["tid"], v["line"])):
+        if v["tid"] in gcunsafe and v["tag"] in ("GCSafe", "SyncNeverFails", "Converged", "RefEquiv", "BuildEquiv", "BuildNeverFails") \
+                and any(f["id"] == "KF-MINVV-AFTER-PULL" for f in F.open_findings(ctx.prop)):
+            ctx.count("attributed_KF-MINVV-AFTER-PULL")
+            ctx.attributed["KF-MINVV-AFTER-PULL"] = "minimum version vector computed after the pull range was fixed (GCSafe violated on a forced schedule)"
+            continue
         ctx.count("raw_violations_" + v["tag"])
         if v["tag"] not in tags and not os.environ.get("VERIF_ALLTAGS"):
             continue
